@@ -36,6 +36,23 @@ def floors(tier):
 def gen(rng):
     if rng.random() < 0.1:
         return TL.gen_spec(rng, c08=True, identity=True)
+    if rng.random() < 0.06:
+        # sideways timeline, narrow texted labels among text-less ones, a small layer gap, enough crowding for a second layer
+        n = rng.choice([6, 8, 10])
+        spec = TL.gen_spec(rng, c08=True, n=n, direction=rng.choice(["left", "right"]), scale_kind="linear", identity=False, text_classes=["ascii"])
+        base = rng.choice([8, 9, 10])
+        for i, d in enumerate(spec["data"]):
+            d["width"] = base + 0.25 * i
+            d["time"] = float(100 + 3 * i)
+            if i % 2:
+                d.pop("text", None)
+        o = spec["options"]
+        o["layerGap"] = rng.choice([1, 2, 5])
+        o.pop("domain", None)
+        o.pop("textFn", None)
+        o.pop("timeFn", None)
+        o["labella"] = {"maxPos": 60, "density": 0.5, "nodeSpacing": 3}
+        return spec
     spec = TL.gen_spec(rng, c08=True, n=rng.choice([2, 3, 5, 8, 12, 20, 40]), identity=False)
     o = spec["options"]
     lab = o.setdefault("labella", {})
